@@ -82,6 +82,22 @@ theorem C17_truncation_is_error (evs : List BodyEv) (h : ¬ WellFramed (flat evs
   unfold Fixed.observe
   exact run_not_wf evs {} (by simpa using h)
 
+/-- **Truncation at every byte.**  Take any sequence of complete frames (messages, trailers)
+and cut its wire form after `k` bytes, where `k` is not a frame boundary (`hk`: the prefix is
+not the wire form of the first `j` frames, for any `j`) — i.e. strictly inside a frame header
+or payload.  However the truncated body is chunked, the caller's stream ends with an error. -/
+theorem C17_truncated_body_is_error (items : List (UInt8 × Bytes))
+    (hitems : ∀ i ∈ items, Spec.GrpcWeb.flagOk i.1 ∧ i.2.length < 4294967296) (k : Nat)
+    (hk : ∀ j, (Spec.GrpcWeb.encItems items).take k ≠ Spec.GrpcWeb.encItems (items.take j))
+    (evs : List BodyEv) (hflat : flat evs = (Spec.GrpcWeb.encItems items).take k) :
+    (Fixed.observe evs).getLast? = some Out.err := by
+  apply C17_truncation_is_error
+  rw [hflat]
+  intro hw
+  obtain ⟨j, hj⟩ := wf_prefix_boundary items hitems _ ((Spec.GrpcWeb.encItems items).drop k)
+    (List.take_append_drop _ _) hw
+  exact hk j hj
+
 /-- **Totality / no busy loop.**  Every run of the repaired loop — any events, also hostile
 ones — is a finite list of data/trailers frames followed by exactly one terminal frame
 (`None` or an error).  (Termination of the loop itself is Lean's termination check of
